@@ -346,11 +346,20 @@ fn server_view(r: &Runner, who: &str) -> Result<(Files, Files), String> {
 }
 
 pub fn run(seed: u64) -> RunReport {
+    run_with(seed, false)
+}
+
+/// With `faults`, a fifth of the deltas is sent with the k-th storage or
+/// file-system mutation of the request failing (k seeded, 1-5): the delta
+/// must then be applied completely or not at all, and a positive reply
+/// means applied.
+pub fn run_with(seed: u64, faults: bool) -> RunReport {
     let t0 = std::time::Instant::now();
+    let name = if faults { "c10fail" } else { "c10" };
     let mut report = RunReport {
-        profile: "c10".into(), seed, ..Default::default()
+        profile: name.into(), seed, ..Default::default()
     };
-    let base = world::make_run_dir(seed, "c10");
+    let base = world::make_run_dir(seed, name);
     hooks::state().reset_for_run(&base, true);
     seams::set_seed(seed);
     seams::set_thread_stream(0);
@@ -407,6 +416,14 @@ pub fn run(seed: u64) -> RunReport {
     let mut bad_kinds: BTreeSet<String> = BTreeSet::new();
     let mut mem = served::ClientMemory::default();
     let mut reset_expected = false;
+    // A delta was stored but the task that makes it visible in RRDP could
+    // not be queued (injected failure of the task store): until the next
+    // publication queues that task again, what is served lags behind.
+    // That is a lost follow-up (C09), not a defect of the publication
+    // protocol (C10).
+    let mut rrdp_task_lost: Option<&'static str> = None;
+    // An RRDP update is queued (a change was accepted since the last pump).
+    let mut rrdp_pending = false;
 
     'outer: for step in 0..n_ops {
         let registered: Vec<String> = ctx.model.keys().cloned().collect();
@@ -486,7 +503,7 @@ pub fn run(seed: u64) -> RunReport {
                     handle, &ADMIN, inst.rt()
                 );
                 match res {
-                    Ok(()) => { ctx.model.remove(who); }
+                    Ok(()) => { ctx.model.remove(who); rrdp_task_lost = None; rrdp_pending = true; }
                     Err(err) => violations.push(Violation {
                         prop: "C10".into(), rule: "remove_publisher_fails".into(),
                         detail: format!("{who}: {err}"), step,
@@ -500,16 +517,132 @@ pub fn run(seed: u64) -> RunReport {
                     log.push(format!("{line} -> unbuildable"));
                     continue
                 };
-                let res = inst.rt().repo_manager().rfc8181_message(
-                    &handle, Query::Delta(delta), inst.rt()
-                );
+                let inject = faults && rng.chance(1, 5);
+                if inject {
+                    let k = 1 + rng.below(5);
+                    hooks::state().fault = hooks::FaultPlan {
+                        mode: hooks::FaultMode::FailAt(k),
+                        scope: hooks::FaultScope::All,
+                        instance: None,
+                        counter: 0,
+                        fired_at: None,
+                        record: false,
+                        sites: Vec::new(),
+                    };
+                }
+                let guarded_res = guarded(|| {
+                    inst.rt().repo_manager().rfc8181_message(
+                        &handle, Query::Delta(delta), inst.rt()
+                    )
+                });
+                let fired = {
+                    let mut st = hooks::state();
+                    let fired = st.fault.fired_at.clone();
+                    st.fault = hooks::FaultPlan::default();
+                    fired
+                };
+                if let Some(at) = &fired {
+                    *report.fired.entry("fail_write".into()).or_insert(0) += 1;
+                    *report.stats.entry(format!(
+                        "fail_at.{}", crate::cuts::classify_site(at)
+                    )).or_insert(0) += 1;
+                }
+                let res = match guarded_res {
+                    Guarded::Ok(res) => res,
+                    other => {
+                        // The daemon stops on some storage errors; only
+                        // after an injected one that is not a finding.
+                        if fired.is_none() {
+                            violations.push(Violation {
+                                prop: "C10".into(), rule: "daemon_dies".into(),
+                                detail: format!("delta of {who}: {other:?}"),
+                                step,
+                            });
+                            break 'outer
+                        }
+                        line.push_str(" -> daemon stopped");
+                        r.world.insts[0].stop();
+                        match guarded(|| r.world.insts[0].start()) {
+                            Guarded::Ok(Ok(())) => { }
+                            other => {
+                                violations.push(Violation {
+                                    prop: "C10".into(),
+                                    rule: "restart_fails".into(),
+                                    detail: format!("{other:?}"), step,
+                                });
+                                break 'outer
+                            }
+                        }
+                        Err(krill::commons::error::Error::custom(
+                            "daemon stopped"
+                        ))
+                    }
+                };
                 let ok = matches!(&res, Ok(Message::Reply(Reply::Success)));
+                if fired.is_some() && !ok {
+                    // The failed request may or may not have happened, but
+                    // never in part.
+                    line.push_str(" -> failed (injected)");
+                    let before = ctx.model.get(who).cloned().unwrap_or_default();
+                    match server_view(&r, who) {
+                        Ok((listed, _)) => {
+                            if listed == before {
+                                line.push_str(", not applied");
+                            }
+                            else if verdict.as_ref().ok() == Some(&listed) {
+                                line.push_str(", applied");
+                                ctx.model.insert(who.clone(), listed);
+                                if fired.as_deref().map(|at| {
+                                    crate::cuts::classify_site(at)
+                                        .ends_with(".task")
+                                }).unwrap_or(false) {
+                                    // Was an update for an earlier,
+                                    // acknowledged change queued?
+                                    rrdp_task_lost = Some(if rrdp_pending {
+                                        "pending_rrdp_update_cancelled"
+                                    } else {
+                                        "rrdp_update_not_queued"
+                                    });
+                                }
+                            }
+                            else {
+                                violations.push(Violation {
+                                    prop: "C10".into(),
+                                    rule: "delta_applied_in_part".into(),
+                                    detail: format!(
+                                        "publisher {who} ({note}): a write \
+                                         failed at {} while the delta was \
+                                         processed; afterwards the \
+                                         publisher's content is neither \
+                                         what it was nor what the whole \
+                                         delta makes it: {}",
+                                        fired.clone().unwrap_or_default(),
+                                        served::diff(
+                                            "before", &before,
+                                            "now", &listed
+                                        ).unwrap_or_default()
+                                    ),
+                                    step,
+                                });
+                            }
+                        }
+                        Err(err) => violations.push(Violation {
+                            prop: "C10".into(), rule: "list_fails".into(),
+                            detail: format!("{who}: {err}"), step,
+                        }),
+                    }
+                    log.push(line);
+                    if !violations.is_empty() { break 'outer }
+                    continue
+                }
                 line.push_str(if ok { " -> success" } else { " -> refused" });
                 bad_kinds.insert(note.clone());
                 match (&verdict, ok) {
                     (Ok(files), true) => {
                         accepted += 1;
                         ctx.model.insert(who.clone(), files.clone());
+                        rrdp_task_lost = None;
+                        rrdp_pending = true;
                     }
                     (Err(_), false) => { refused += 1; }
                     (Ok(_), false) => violations.push(Violation {
@@ -540,6 +673,7 @@ pub fn run(seed: u64) -> RunReport {
             }
             POp::List(_) => { }
             POp::Pump => {
+                rrdp_pending = false;
                 let res = r.exec_pump();
                 line.push_str(&format!(" -> {res}"));
                 if r.dead.is_some() {
@@ -557,6 +691,7 @@ pub fn run(seed: u64) -> RunReport {
                 }
             }
             POp::Restart => {
+                rrdp_task_lost = None;
                 r.world.insts[0].stop();
                 match guarded(|| r.world.insts[0].start()) {
                     Guarded::Ok(Ok(())) => { }
@@ -612,8 +747,9 @@ pub fn run(seed: u64) -> RunReport {
                             "the RRDP snapshot", &view.snapshot
                         ) {
                             violations.push(Violation {
-                                prop: "C10".into(),
-                                rule: "snapshot_differs".into(),
+                                prop: if rrdp_task_lost.is_some() { "C09" } else { "C10" }.into(),
+                                rule: rrdp_task_lost
+                                    .unwrap_or("snapshot_differs").into(),
                                 detail: d, step,
                             });
                         }
@@ -634,8 +770,10 @@ pub fn run(seed: u64) -> RunReport {
                                 && files.get(&c) != Some(hash)
                             {
                                 violations.push(Violation {
-                                    prop: "C10".into(),
-                                    rule: "foreign_object_in_space".into(),
+                                    prop: if rrdp_task_lost.is_some() { "C09" } else { "C10" }.into(),
+                                    rule: rrdp_task_lost
+                                        .unwrap_or("foreign_object_in_space")
+                                        .into(),
                                     detail: format!(
                                         "{uri} is served below the base \
                                          of {who} but is not what {who} \
